@@ -10,8 +10,3 @@ func VerifUTestSamples(alpha float64) (string, int) { return uTestSamples(alpha)
 
 // VerifMedianSamples exposes medianSamples.
 func VerifMedianSamples(confidence float64) (string, int) { return medianSamples(confidence) }
-
-// VerifMedianSamplesAbove exposes medianSamplesAbove.
-func VerifMedianSamplesAbove(confidence float64, have int) (string, int) {
-	return medianSamplesAbove(confidence, have)
-}
